@@ -31,8 +31,9 @@ package main
 // mixed-API-level file internal/testprotos/mixed) run as "self" flavours against dynamicpb.
 //
 // Known findings recognised narrowly: F13 (slow path refuses MessageSet without protolegacy;
-// the fast path writes type ids >= 2^29 as an unparseable ordinary tag), FWE2 (opaque
-// WhichOneof of the synthetic oneof of a proto3-optional message field), F1 (lazy decoding).
+// the fast path writes type ids >= 2^29 as an unparseable ordinary tag), F1 (lazy decoding).
+// FWE2 (opaque WhichOneof of the synthetic oneof of a proto3-optional message field) is repaired;
+// its witness stays in the corpus (dense content of opaque test3.TestAllTypes) as a plain comparison.
 //
 // There is no Coq model comparison in this family: only P (property fails), K (known findings),
 // S (statistics) and X (samples) lines.
@@ -1319,7 +1320,7 @@ func flvNormText(b []byte) string {
 }
 
 // flvWhich renders WhichOneof of every oneof (real and synthetic) of m and of all populated
-// sub-messages.  Finding FWE2 is recognised here and rendered as the contract demands.
+// sub-messages (the repaired finding FWE2 -- opaque synthetic oneofs -- is a plain comparison now).
 func flvWhich(c *Ctx, opaque bool, m protoreflect.Message, out []string) []string {
 	md := m.Descriptor()
 	ods := md.Oneofs()
@@ -1329,13 +1330,6 @@ func flvWhich(c *Ctx, opaque bool, m protoreflect.Message, out []string) []strin
 		n := protoreflect.FieldNumber(0)
 		if w != nil {
 			n = w.Number()
-		}
-		if w == nil && opaque && od.IsSynthetic() {
-			fd := od.Fields().Get(0)
-			if fd.Message() != nil && !msgIsLazyField(fd) && m.Has(fd) {
-				flvKnown(c, "FWE2", "opaque: WhichOneof of the synthetic oneof of a populated proto3-optional (non-lazy) message field returns nil: "+string(fd.FullName()))
-				n = fd.Number()
-			}
 		}
 		out = append(out, "o"+strconv.Itoa(i)+"="+strconv.Itoa(int(n)))
 	}
